@@ -150,6 +150,8 @@ type target struct {
 	free     map[string][]string // callee text -> names of the fields of a struct-literal argument, in the order they are passed:
 	// a call `return callee(args)` is left uninterpreted — the definition is polymorphic in a result type `R`, takes the callee
 	// as a function into `R` and an injection `ret` of ordinary results into `R`
+	freeStmt map[string][]string // like free, for calls in statement position: the function parameter takes the call's arguments
+	// and the result of everything that follows (`callee args rest : R`)
 	doc string
 }
 
@@ -180,6 +182,18 @@ var targets = []target{
 	{pkg: "gws", fn: "Conn.readControl", lean: "Conn_readControl_guards",
 		from: "if !c.fh.GetFIN()", to: "var payload []byte", liveOut: []string{"n"},
 		doc: "the two guards of readControl that precede the payload read"},
+	{pkg: "gws", fn: "frameHeader.GetMaskKey", lean: "frameHeader_GetMaskKey"},
+	{pkg: "gws", fn: "Message.Bytes", lean: "Message_Bytes"},
+	{pkg: "gws", fn: "Conn.readControl", lean: "Conn_readControl_body",
+		from: "var payload []byte", to: "",
+		skip: []string{"var err = fmt.Errorf"},
+		free:     map[string][]string{"c.emitClose": nil},
+		freeStmt: map[string][]string{"c.handler.OnPing": nil, "c.handler.OnPong": nil},
+		doc:      "readControl after its two guards: payload read and unmasking, then the dispatch on the opcode; the callbacks and emitClose are left uninterpreted"},
+	{pkg: "gws", fn: "Conn.emitMessage", lean: "Conn_emitMessage",
+		oracles: map[string]string{"c.deflater.Decompress(msg.Data, c.dpsWindow.dict)": "inflated"},
+		free:    map[string][]string{"c.readQueue.Go": nil, "c.dispatch": nil},
+		doc:     "emitMessage: inflate (the inflater's result is an input), window update, UTF-8 gate, then dispatch (left uninterpreted)"},
 	{pkg: "gws", fn: "Conn.emitClose", lean: "Conn_emitClose_body",
 		from: "var responseCode =", to: "if atomic.CompareAndSwapUint32", liveOut: []string{"responseCode", "realCode"},
 		doc: "everything emitClose computes from the body of a received Close frame (status reported, reason left in buf, status answered) before the closed-flag CAS"},
@@ -293,6 +307,9 @@ func (tr *translator) leanType(t types.Type) (string, bool) {
 		if isJobDeque(t) {
 			return "(List Nat)", true
 		}
+		if n, ok := t.(*types.Named); ok && n.Obj().Name() == "Reader" && n.Obj().Pkg() != nil && n.Obj().Pkg().Path() == "bufio" {
+			return "(List UInt8)", true // a *bufio.Reader consumed through ReadN: the bytes it will deliver
+		}
 	case *types.Signature:
 		if n, ok := t.(*types.Named); ok && n.Obj().Name() == "asyncJob" {
 			return "(Option Nat)", true // a job is identified by a number; nil is none
@@ -317,6 +334,14 @@ func isBuffer(t types.Type) bool {
 	}
 	n, ok := t.(*types.Named)
 	return ok && n.Obj().Name() == "Buffer" && n.Obj().Pkg() != nil && n.Obj().Pkg().Path() == "bytes"
+}
+
+func isBufio(t types.Type) bool {
+	if pt, ok := t.(*types.Pointer); ok {
+		t = pt.Elem()
+	}
+	n, ok := t.(*types.Named)
+	return ok && n.Obj().Name() == "Reader" && n.Obj().Pkg() != nil && n.Obj().Pkg().Path() == "bufio"
 }
 
 func isPayload(t types.Type) bool { return strings.HasSuffix(t.String(), "internal.Payload") }
@@ -346,6 +371,7 @@ type fn struct {
 	segment  bool
 	noReturn bool
 	locals   map[string]bool
+	freeCont map[string]bool // free callee parameters that take the continuation
 	structTy map[string]string
 	freeSig  map[string][]string // free callee parameter -> argument types
 	freeOrd  []string
@@ -399,7 +425,7 @@ func (f *fn) pathOf(e ast.Expr) (string, bool) {
 			if pt, ok := t.Underlying().(*types.Pointer); ok {
 				t = pt.Elem()
 			}
-			if _, ok := t.Underlying().(*types.Struct); ok && !isBuffer(t) && !isJobDeque(t) {
+			if _, ok := t.Underlying().(*types.Struct); ok && !isBuffer(t) && !isJobDeque(t) && !isBufio(t) {
 				return v.Name, true
 			}
 		}
@@ -823,6 +849,8 @@ func (f *fn) call(c *ast.CallExpr) string {
 	}
 	fname := text[:min(len(text), strings.Index(text+"(", "("))]
 	switch {
+	case fname == "internal.NewError": // an *internal.Error: only its status code matters to the caller (emitError)
+		return fmt.Sprintf("(some (GoErr.coded %s))", f.expr(c.Args[0]))
 	case fname == "binaryPool.Get":
 		return "([] : List UInt8)"
 	case fname == "bytes.NewBuffer":
@@ -930,8 +958,11 @@ func (f *fn) call(c *ast.CallExpr) string {
 				f.bad(c, "callee state "+st+" is not a field of its receiver")
 			}
 		}
-		if r.retType != "" {
-			f.bad(c, "callee with field state and results")
+		if r.retType != "" { // results come behind the state
+			f.tmp++
+			tmp := fmt.Sprintf("r%d", f.tmp)
+			f.pre = append(f.pre, fmt.Sprintf("let (%s, %s) := %s", strings.Join(names, ", "), tmp, app))
+			return tmp
 		}
 		f.pre = append(f.pre, fmt.Sprintf("let %s := %s", tuple(names), app))
 		return "()"
@@ -1203,7 +1234,7 @@ func (f *fn) block(list []ast.Stmt, k cont) string {
 				vals = append(vals, leanIdent(n))
 			}
 		}
-		if len(f.t.free) > 0 {
+		if len(f.t.free) > 0 || len(f.t.freeStmt) > 0 {
 			if len(st.Results) == 1 {
 				if c, ok := st.Results[0].(*ast.CallExpr); ok {
 					if app, ok := f.freeCall(c); ok {
@@ -1337,6 +1368,15 @@ func (f *fn) block(list []ast.Stmt, k cont) string {
 		text := strings.Join(strings.Fields(f.src(c.Fun)), "")
 		if strings.HasPrefix(text, "verif") {
 			return next()
+		}
+		if _, ok := f.t.freeStmt[text]; ok {
+			saved := f.t.free
+			f.t.free = f.t.freeStmt
+			app, _ := f.freeCall(c)
+			f.t.free = saved
+			f.freeCont[leanIdent(strings.ReplaceAll(text, ".", "_"))] = true
+			f.flush(&sb)
+			return sb.String() + "(" + strings.TrimSuffix(app, ")")[1:] + " (\n" + indent(f.retOnly(next())) + "))"
 		}
 		switch text {
 		case "copy":
@@ -1494,8 +1534,14 @@ func (f *fn) tupleCall(st *ast.AssignStmt) (string, bool) {
 		}
 		names = append(names, f.lvalueName(l))
 	}
-	if len(f.pre) > saved { // the call was hoisted as `let (recv, rN) := …`: destructure rN
-		return fmt.Sprintf("let (%s) := %s", strings.Join(names, ", "), v), true
+	allBlank := true
+	for _, n := range names {
+		if n != "_" {
+			allBlank = false
+		}
+	}
+	if len(f.pre) > saved && allBlank { // the call was hoisted (it threads state) and its results are dropped
+		return "", true
 	}
 	return fmt.Sprintf("let (%s) := %s", strings.Join(names, ", "), v), true
 }
@@ -1511,6 +1557,9 @@ func (f *fn) resultValue(r ast.Expr, lt string) string {
 	}
 	return v
 }
+
+// retOnly: the continuation handed to a free statement call is the translated rest as it stands
+func (f *fn) retOnly(s string) string { return s }
 
 func structLit(e ast.Expr) *ast.CompositeLit {
 	if u, ok := e.(*ast.UnaryExpr); ok && u.Op == token.AND {
@@ -1560,6 +1609,12 @@ func (f *fn) freeCall(c *ast.CallExpr) (string, bool) {
 				types_ = append(types_, f.structTy[leanIdent(id.Name)+"_"+fn])
 			}
 			continue
+		}
+		if id, ok := a.(*ast.Ident); ok && f.recv != nil && f.p.info.Uses[id] == f.recv {
+			continue // the connection itself handed to a callback
+		}
+		if _, isFn := f.typeOf(a).Underlying().(*types.Signature); isFn {
+			continue // a method value handed on (c.dispatch)
 		}
 		if path, ok := f.pathOf(a); ok { // a struct passed by value: its fields, in declaration order
 			t := f.typeOf(a)
@@ -1795,7 +1850,7 @@ func (tr *translator) translate(key string) *result {
 	if !ok {
 		fail("function %s.%s not found", t.pkg, t.fn)
 	}
-	f := &fn{tr: tr, p: p, decl: decl, t: t, pathSet: map[string]string{}, oracleSet: map[string]string{}, state: map[string]bool{}, locals: map[string]bool{}, alias: map[string]string{}, streams: map[string]bool{}, structs: map[string][]string{}, freeSig: map[string][]string{}, structTy: map[string]string{}}
+	f := &fn{tr: tr, p: p, decl: decl, t: t, pathSet: map[string]string{}, oracleSet: map[string]string{}, state: map[string]bool{}, locals: map[string]bool{}, alias: map[string]string{}, streams: map[string]bool{}, structs: map[string][]string{}, freeSig: map[string][]string{}, structTy: map[string]string{}, freeCont: map[string]bool{}}
 	if decl.Recv != nil && len(decl.Recv.List) == 1 && len(decl.Recv.List[0].Names) == 1 {
 		f.recv, _ = p.info.Defs[decl.Recv.List[0].Names[0]].(*types.Var)
 	}
@@ -1944,12 +1999,16 @@ func (tr *translator) translate(key string) *result {
 		r.params = append(r.params, param{leanIdent(o), f.oracleSet[o]})
 	}
 	// free calls: polymorphic result
-	if len(t.free) > 0 {
+	if len(t.free) > 0 || len(t.freeStmt) > 0 {
 		orig := strings.Join(f.retTypes, " × ")
 		var pre []param
 		pre = append(pre, param{"ret", "(" + orig + " → R)"})
 		for _, fn := range f.freeOrd {
-			pre = append(pre, param{fn, "(" + strings.Join(append(append([]string{}, f.freeSig[fn]...), "R"), " → ") + ")"})
+			tys := append(append([]string{}, f.freeSig[fn]...), "R")
+			if f.freeCont[fn] { // takes the arguments and what follows the call; both are results of the whole definition
+				tys = append(tys[:len(tys)-1], "«RES»", "«RES»")
+			}
+			pre = append(pre, param{fn, "(" + strings.Join(tys, " → ") + ")"})
 		}
 		r.params = append(pre, r.params...)
 		f.retTypes = []string{"R"}
@@ -2064,6 +2123,9 @@ func main() {
 			fmt.Fprintf(&sb, " (%s : %s)", prm.name, prm.typ)
 		}
 		fmt.Fprintf(&sb, " : %s :=\n%s\n\n", resultTypes[k], indent(r.body))
+		out := strings.ReplaceAll(sb.String(), "«RES»", "("+resultTypes[k]+")")
+		sb.Reset()
+		sb.WriteString(out)
 	}
 	sb.WriteString("end Trans\n")
 	if *out == "" {
